@@ -909,7 +909,6 @@ func ruleLock10(c *Ctx, r *Reporter) {
 	r.guard(outcomes, 2, "return outcomes of Semaphore.Acquire (constant returns and merged constants)")
 }
 
-
 // ---- RET-1: the retention predicate of Transaction.Clean ------------------------------
 
 func init() {
@@ -923,10 +922,16 @@ type decision struct {
 
 // enumPaths enumerates the acyclic paths from start until stop(b) holds or the function returns. Boolean
 // phis used as branch conditions are resolved through the edge the path entered their block by.
-var enumEndPreds []*ssa.BasicBlock // predecessor through which each path of the last enumPaths call reached its end block
+var enumEndPreds []*ssa.BasicBlock     // predecessor through which each path of the last enumPaths call reached its end block
+var enumPathBlocks [][]*ssa.BasicBlock // the blocks of each path of the last enumPaths call, in order (without the end block)
+var enumWatch []ssa.Value              // boolean values to evaluate at the end of each path (set by the caller before the call)
+var enumWatchVals [][]int8             // per path, per watched value: 1 true, 0 false, -1 unknown
+var enumWatchV []ssa.Value             // values to resolve through phis along each path (the phi may sit in the end block)
+var enumWatchVRes [][]ssa.Value        // per path, per watched value: the value that flows in on this path
 
 func enumPaths(start *ssa.BasicBlock, entryPred *ssa.BasicBlock, stop func(*ssa.BasicBlock) bool, limit int) (paths [][]decision, ends []*ssa.BasicBlock, truncated bool) {
-	enumEndPreds = nil
+	enumEndPreds, enumPathBlocks, enumWatchVals, enumWatchVRes = nil, nil, nil, nil
+	var cur []*ssa.BasicBlock
 	predOf := map[*ssa.BasicBlock]*ssa.BasicBlock{}
 	onPath := map[*ssa.BasicBlock]bool{}
 	var decs []decision
@@ -957,6 +962,63 @@ func enumPaths(start *ssa.BasicBlock, entryPred *ssa.BasicBlock, stop func(*ssa.
 		}
 		return false, false, v
 	}
+	emit := func(end, pred *ssa.BasicBlock) {
+		paths = append(paths, append([]decision{}, decs...))
+		ends = append(ends, end)
+		enumEndPreds = append(enumEndPreds, pred)
+		enumPathBlocks = append(enumPathBlocks, append([]*ssa.BasicBlock{}, cur...))
+		var wv []int8
+		for _, w := range enumWatch {
+			k, v, _ := eval(w)
+			switch {
+			case !k:
+				wv = append(wv, -1)
+			case v:
+				wv = append(wv, 1)
+			default:
+				wv = append(wv, 0)
+			}
+		}
+		enumWatchVals = append(enumWatchVals, wv)
+		var rv []ssa.Value
+		for _, w := range enumWatchV {
+			v := w
+			for i := 0; i < 16; i++ {
+				ph, ok := v.(*ssa.Phi)
+				if !ok {
+					break
+				}
+				var p *ssa.BasicBlock
+				switch {
+				case ph.Block() == end:
+					p = pred
+				case onPath[ph.Block()]:
+					p = predOf[ph.Block()]
+				}
+				if p == nil {
+					break
+				}
+				next := ssa.Value(nil)
+				for j, pb := range ph.Block().Preds {
+					if pb == p {
+						next = ph.Edges[j]
+					}
+				}
+				if next == nil || next == v || (next == w && i > 0) {
+					if next != nil {
+						v = next
+					}
+					break
+				}
+				v = next
+				if v == w {
+					break
+				}
+			}
+			rv = append(rv, v)
+		}
+		enumWatchVRes = append(enumWatchVRes, rv)
+	}
 	var dfs func(b, pred *ssa.BasicBlock)
 	dfs = func(b, pred *ssa.BasicBlock) {
 		if truncated {
@@ -967,14 +1029,13 @@ func enumPaths(start *ssa.BasicBlock, entryPred *ssa.BasicBlock, stop func(*ssa.
 			return
 		}
 		if stop(b) || onPath[b] {
-			paths = append(paths, append([]decision{}, decs...))
-			ends = append(ends, b)
-			enumEndPreds = append(enumEndPreds, pred)
+			emit(b, pred)
 			return
 		}
 		onPath[b] = true
 		predOf[b] = pred
-		defer func() { onPath[b] = false }()
+		cur = append(cur, b)
+		defer func() { onPath[b] = false; cur = cur[:len(cur)-1] }()
 		last := b.Instrs[len(b.Instrs)-1]
 		switch x := last.(type) {
 		case *ssa.If:
@@ -1014,9 +1075,7 @@ func enumPaths(start *ssa.BasicBlock, entryPred *ssa.BasicBlock, stop func(*ssa.
 		case *ssa.Jump:
 			dfs(b.Succs[0], b)
 		default:
-			paths = append(paths, append([]decision{}, decs...))
-			ends = append(ends, nil)
-			enumEndPreds = append(enumEndPreds, b)
+			emit(nil, b)
 		}
 	}
 	dfs(start, entryPred)
@@ -1305,7 +1364,6 @@ func ruleRet1(c *Ctx, r *Reporter) {
 	r.check(badForced == "", "Clean:drop only when forced", pos, "all dropping paths decide i < len - maxSize or ts < maxAge cutoff", badForced)
 	r.trivial("Clean:paths", pos, fmt.Sprintf("%d paths through the loop body enumerated, %d reach the dropped counter", len(paths), nDrop))
 }
-
 
 // ---- WATCH-1: the start-at position of a change stream --------------------------------
 
